@@ -118,3 +118,88 @@ Print Assumptions C15_every_call_returns.
 Print Assumptions C15_keepalive_after_failure.
 Print Assumptions C15_legacy_refuted_D28.
 Print Assumptions C15_tie_sound.
+
+(* ------------------------------------------------------------------ the keep-alive loop from every state (run-existence) *)
+From V Require Import Proofs.ConnLive.
+
+(* Once Done() is closed the keep-alive loop reaches its return from EVERY state
+   it can be in ([ka s <> KOff]: EnquireLink was started): about to send an
+   enquire_link (KReady), inside that Submit wherever the call is (KInPing),
+   about to call Close after a failure (KNeedClose), inside that Close
+   (KInClose), waiting for the tick (KWaitTick).  The run consists of
+   [ka_event]s only:
+     KaNext, KaSeeDone                   the loop's own steps;
+     Start _ KPing / Start _ KKaClose    the loop issues its enquire_link / its Close.  In this model the
+                                         issue of ANY call is a [Start] event, i.e. formally an event of the
+                                         environment: exit from KReady / KNeedClose is therefore not derivable
+                                         from KaNext / KaSeeDone alone.  The theorem holds whatever sequence
+                                         numbers qp, qc and frames fp, fc these two calls get;
+     Register, WireWrite, SendFail, WriteReturn, WakeDone, Unregister, CloseFinish
+                                         of calls of kind KPing / KKaClose (not [visible]): the steps of those
+                                         calls; [WriteReturn] = the transport lets the call's Write return, the
+                                         only thing needed from outside.
+   No timer is needed: with Done() closed every select of these calls has a ready case. *)
+Theorem C15_keepalive_exit_any : forall s (qp : Z) (fp : outcome bytes) (qc : Z) (fc : outcome bytes),
+  reachable fixed s -> done s = true -> ka s <> KOff ->
+  exists t s', run fixed s t = Some s' /\ ka s' = KExited /\ Forall (ka_event s') t.
+Proof. exact ka_exit_any. Qed.
+
+(* After a failed enquire_link (the loop has stopped its ticker), WHETHER OR NOT
+   Done() is closed: from the point where the loop is about to call Close, or is
+   inside that Close wherever the call is, it reaches its return, and Done() is
+   closed then.  Besides the [ka_event]s above the run needs, from outside, the
+   one-second context of that Close expiring ([CancelCtx] of the call, followed
+   by its select taking that case, [WakeCtx]): [ka_event_t].  No answer of the
+   peer is needed. *)
+Theorem C15_keepalive_exit_failed : forall s (qc : Z) (fc : outcome bytes), reachable fixed s ->
+  (ka s = KNeedClose \/ exists c, ka s = KInClose c) ->
+  exists t s', run fixed s t = Some s' /\ ka s' = KExited /\ done s' = true /\ Forall (ka_event_t s') t.
+Proof. exact ka_exit_failed. Qed.
+
+(* Non-vacuity: Done() closed by the parent while the loop is inside its
+   enquire_link, itself inside the transport Write; and: the enquire_link timed
+   out, the loop stopped its ticker and is about to call Close, Done() open. *)
+Example C15_keepalive_example :
+  exists s, reachable fixed s /\ done s = true /\ ka s = KInPing 0 /\ c_pc (callers s 0%nat) = PWriting /\
+            ticker_stopped s = false.
+Proof. exact ka_example. Qed.
+Example C15_keepalive_failed_example :
+  exists s, reachable fixed s /\ done s = false /\ ka s = KNeedClose /\ ticker_stopped s = true /\
+            c_pc (callers s 0%nat) = PReturned RErr.
+Proof. exact ka_failed_example. Qed.
+
+(* ------------------------------------------------------------------ Watch and the consumer of PDU() *)
+(* [C15_watch_exit] above lets the application receive ([AppRecv] is a
+   [watch_event]).  That hypothesis cannot be dropped: "the transport reports EOF
+   ... Watch returns" holds with a draining application only.  Watch blocked in
+   its send on the unbuffered queue leaves it only by a receive or, Done()
+   closed, by giving the send up: *)
+Theorem C15_sending_step : forall s e s' p, wpc s = WSending p -> step fixed s e = Some s' ->
+  wpc s' = WSending p \/ e = AppRecv \/ (e = WatchSeeDone /\ done s = true).
+Proof. exact sending_step. Qed.
+(* hence with NO consumer it stays there, Done() open, whatever else happens —
+   EOF, errors, timeouts of the transport included — until the parent is
+   cancelled or a Close finishes; *)
+Theorem C15_watch_needs_consumer : forall t s s' p,
+  wpc s = WSending p -> done s = false -> run fixed s t = Some s' ->
+  Forall (fun e => e <> AppRecv /\ no_teardown e) t -> wpc s' = WSending p /\ done s' = false.
+Proof. exact watch_needs_consumer. Qed.
+(* after which it gives the send up, closes the queue and returns. *)
+Theorem C15_sending_gives_up : forall s p, wpc s = WSending p -> done s = true ->
+  exists s', step fixed s WatchSeeDone = Some s' /\ wpc s' = WExited /\ queue_closed s' = true /\ done s' = true.
+Proof. exact sending_gives_up. Qed.
+(* What holds with no consumer after the transport reported its end: by its own
+   steps alone Watch either returns, Done() closed, or ends up blocked in the
+   send of an unsolicited PDU that was still readable. *)
+Theorem C15_watch_exit_no_consumer : forall s, reachable fixed s -> ended s ->
+  exists t s', run fixed s t = Some s' /\ Forall watch_own t /\
+               ((wpc s' = WExited /\ done s' = true) \/ exists p, wpc s' = WSending p).
+Proof. exact watch_alone. Qed.
+Example C15_sending_example :
+  exists s, reachable fixed s /\ ended s /\ wpc s = WSending (5, 100%Z) /\ done s = false.
+Proof. exact sending_example. Qed.
+
+Print Assumptions C15_keepalive_exit_any.
+Print Assumptions C15_keepalive_exit_failed.
+Print Assumptions C15_watch_needs_consumer.
+Print Assumptions C15_watch_exit_no_consumer.
